@@ -39,11 +39,18 @@ type NShape struct {
 	Nil  bool
 }
 
+var shapeKeyMemo = map[NShape]string{}
+
 func (s NShape) key() string {
 	if s.Nil {
 		return "nil"
 	}
-	return fmt.Sprintf("%s/%d/%v", s.T.Obj().Name(), s.Enum, s.Next)
+	if k, ok := shapeKeyMemo[s]; ok {
+		return k
+	}
+	k := fmt.Sprintf("%s/%d/%v", s.T.Obj().Name(), s.Enum, s.Next)
+	shapeKeyMemo[s] = k
+	return k
 }
 
 type ShapeSet map[string]NShape
